@@ -11,19 +11,29 @@ imperatively as single-table, joined-table and concrete inheritance on SQLite, r
 inserted with raw SQL (NULL attribute values included), every class queried with
 with_polymorphic none / '*' / a random subset, hierarchies with and without
 polymorphic_load="selectin"; corrupted discriminators (unknown identity, NULL, identity of
-another branch / of the parent) for the documented errors.
+another branch / of the parent) for the documented errors.  The discriminator column is a
+String, Integer or Boolean column and the identities are a random injection into its values,
+the falsy ones ('' / 0 / False) included, on any class of the tree; inner classes may be
+polymorphic_abstract.  Every class is also queried with the selectin_polymorphic() option, and
+about half of the queries are repeated with populate_existing (statement option, execution
+option, or Mapper(always_refresh=True)) and / or in a Session that already holds the objects
+of an earlier select(K') / with_polymorphic load, some of their attributes read, whose stored
+values were then changed by raw UPDATEs.
 
 Direct oracle: result == the generated objects whose class descends from the queried class,
-in id order, each as its own class with its own attribute values after access.
-Correspondence: entities, error kind, number of statements emitted by the load, number of
-deferred loads on attribute access, against the model.
+in id order, each as its own class with its own attribute values after access: the stored
+values, except that without populate_existing an attribute already loaded in the Session
+keeps the value it had.
+Correspondence: entities and values read, error kind, number of statements emitted by the
+load, number of deferred loads on attribute access, against the model (the observed state of
+the pre-loaded objects is an input of the model's `populate`).
 """
 PID = "C42"
 LEVEL = "proof"
 LEAN = ["SaVerif.Props.C42"]
 META = {
-    "text": "Lean theorems for every class tree (given by ancestor chains), every data set and every queried class: over consistently stored data the single-table, joined-table and concrete plans return exactly the objects whose class descends from the queried class, each as the class its discriminator names with that class's attribute values (polymorphic_most_specific_*, subclass_filter_*), independently of with_polymorphic; unknown / NULL discriminators and identities outside the queried subtree give the documented errors (decide_*). The model is tied to the ORM by generated hierarchies of the three kinds on SQLite: classes, values after access, error kinds and statement counts are compared, and the property itself is checked against the generated data.",
-    "note": "Known findings (unchanged tree): re-executing the identical, cached select(M) after a subclass of M was mapped later returns the stale row set (single table) or raises AttributeError (joined); the generated late-mapping histories therefore run their second round uncached. Statement counts after attribute access are modelled only for hierarchies without polymorphic_load='selectin'; with selectin the model predicts classes, values and the number of statements of the load itself. Modelled-not-verified: of_type(), selectin_polymorphic() option, with_polymorphic against an aliased subquery, composite keys, relationships, equal primary keys in two concrete tables, selectin chunking (500).",
+    "text": "Lean theorems for every class tree (given by ancestor chains and an injective assignment of discriminator values to the non-abstract classes), every data set and every queried class: over consistently stored data the single-table, joined-table and concrete plans return exactly the objects whose class descends from the queried class, each as the class its discriminator names with that class's attribute values (polymorphic_most_specific_*, subclass_filter_*), independently of with_polymorphic; the single-table IN list is exactly the identities of the non-abstract classes of the subtree, whatever the values (in_list_exact / _complete / _sound); unknown / NULL discriminators and identities outside the queried subtree give the documented errors (decideClass_spec). Population of an object from a row (new instance, populate_existing / always_refresh, partial population of an object already in the Session): with populate_existing every attribute reads the database value, without it a load changes nothing attribute access can see (populate_existing_reads_db, plain_load_keeps_reads, readEnt_*). The model is tied to the ORM by generated hierarchies of the three kinds on SQLite with String / Integer / Boolean discriminators including the falsy identities, polymorphic_abstract classes, with_polymorphic / selectin_polymorphic settings, populate_existing and pre-loaded Sessions: classes, values after access, error kinds and statement counts are compared, and the property itself is checked against the generated data.",
+    "note": "Known findings (unchanged tree): re-executing the identical, cached select(M) after a subclass of M was mapped later returns the stale row set (single table) or raises AttributeError (joined); the generated late-mapping histories therefore run their second round uncached. Statement counts after attribute access are modelled only for hierarchies without polymorphic_load='selectin'; with selectin the model predicts classes, values and the number of statements of the load itself. Statement counts are not compared for the selectin_polymorphic() option nor for pre-loaded Sessions of hierarchies with polymorphic_load='selectin' (values and classes are). Modelled-not-verified: of_type(), with_polymorphic against an aliased subquery, composite keys, relationships, equal primary keys in two concrete tables, selectin chunking (500).",
     "technique": "Lean 4 proofs over list-level relational plans + differential execution of generated inheritance hierarchies on SQLite",
     "design_ref": "DESIGN.md §3 C40-C42",
 }
@@ -57,16 +67,38 @@ def mid_of(pk):
     return n
 
 
+UNKNOWN_CODE = 99
+
+
+def ident_value(idkind, code):
+    """discriminator value of a model identity code; code 0 is the falsy value of the domain"""
+    if code is None:
+        return None
+    if idkind == "int":
+        return code
+    if idkind == "bool":
+        return bool(code)
+    return "" if code == 0 else "c%d" % code
+
+
+def default_idents(n):
+    return [c + 1 for c in range(n)]
+
+
 class Mapping:
     """the class tree mapped imperatively; classes [0, upto) are mapped at construction, the
-    rest by extend() (late subclasses of already configured - possibly already queried - mappers)"""
+    rest by extend() (late subclasses of already configured - possibly already queried - mappers).
+    idents[c] = identity code of class c (None = polymorphic_abstract), idkind = the domain of the
+    discriminator column (str / int / bool); refresh = Mapper(always_refresh=True)"""
 
-    def __init__(self, kind, parent, selectin=(), npk=1, upto=None):
-        from sqlalchemy import Column, ForeignKeyConstraint, Integer, String, Table
+    def __init__(self, kind, parent, selectin=(), npk=1, upto=None, idkind="str", idents=None, refresh=False):
+        from sqlalchemy import Boolean, Column, ForeignKeyConstraint, Integer, String, Table
         from sqlalchemy.orm import registry
 
         self.kind, self.parent, self.selectin, self.npk = kind, parent, selectin, npk
         n = len(parent)
+        self.idkind, self.idents, self.refresh = idkind, (idents or default_idents(n)), refresh
+        DiscType = {"str": String, "int": Integer, "bool": Boolean(create_constraint=False)}[idkind]  # type of the discriminator column
         self.anc = ancs_of(parent)
         self.sub = [[d for d in range(n) if c in self.anc[d]] for c in range(n)]
         self.reg = registry()
@@ -79,11 +111,11 @@ class Mapping:
         self.mappers = [None] * n
         self.tables = {}
         if kind == "single":
-            self.tables["t"] = Table("t", md, *[Column(k, Integer, primary_key=True, autoincrement=False) for k in pkc], Column("type", String), *[Column("a%d" % c, Integer) for c in range(n)])
+            self.tables["t"] = Table("t", md, *[Column(k, Integer, primary_key=True, autoincrement=False) for k in pkc], Column("type", DiscType), *[Column("a%d" % c, Integer) for c in range(n)])
         elif kind == "joined":
             for c in range(n):
                 if parent[c] is None:
-                    self.tables[c] = Table("t%d" % c, md, *[Column(k, Integer, primary_key=True, autoincrement=False) for k in pkc], Column("type", String), Column("a%d" % c, Integer))
+                    self.tables[c] = Table("t%d" % c, md, *[Column(k, Integer, primary_key=True, autoincrement=False) for k in pkc], Column("type", DiscType), Column("a%d" % c, Integer))
                 else:
                     self.tables[c] = Table(
                         "t%d" % c, md, *[Column(k, Integer, primary_key=True, autoincrement=False) for k in pkc], Column("a%d" % c, Integer),
@@ -101,7 +133,14 @@ class Mapping:
         kind, parent, reg, anc, sub = self.kind, self.parent, self.reg, self.anc, self.sub
         pkc = PKCOLS[: self.npk]
         for c in range(self.mapped, hi):
-            kw = dict(polymorphic_identity="c%d" % c)
+            if kind == "concrete":
+                kw = dict(polymorphic_identity="c%d" % c)
+            elif self.idents[c] is None:
+                kw = dict(polymorphic_abstract=True)
+            else:
+                kw = dict(polymorphic_identity=ident_value(self.idkind, self.idents[c]))
+            if self.refresh:
+                kw["always_refresh"] = True
             if c in self.selectin and kind != "concrete":
                 kw["polymorphic_load"] = "selectin"
             if kind == "single":
@@ -127,13 +166,14 @@ class Mapping:
         self.mapped = hi
 
 
-def disc_str(d):
-    return None if d is None else ("c%d" % d if d >= 0 else "zzz")
-
-
-def store(kind, parent, objs, corrupt, eng, npk=1):
+def store(kind, parent, objs, corrupt, eng, npk=1, idkind="str", idents=None):
     """raw INSERTs; `corrupt` = {id: discriminator override (None = NULL, -1 = unknown, k = class k)}"""
     anc = ancs_of(parent)
+    idents = idents or default_idents(len(parent))
+
+    def disc_str(d):
+        return None if d is None else ident_value(idkind, idents[d] if d >= 0 else UNKNOWN_CODE)
+
     pkc = PKCOLS[:npk]
     q = lambda k: ",".join("?" * k)  # noqa: E731
     with eng.begin() as conn:
@@ -177,61 +217,130 @@ def fmt_ents(ents):
     return ";".join("%d:%d:%s" % (i, c, fmt_vals(vs)) for i, c, vs in ents) if ents else "-"
 
 
-def run_query(eng, classes, parent, C, wp, counter, npk=1, nocache=False, shape=0):
-    """execute select(C) under a with_polymorphic setting; returns canonical outcome"""
+def entity_for(classes, C, wp):
+    from sqlalchemy.orm import with_polymorphic
+
+    if wp is None:
+        return classes[C]
+    if wp == "*":
+        return with_polymorphic(classes[C], "*")
+    return with_polymorphic(classes[C], [classes[x] for x in wp])
+
+
+def raw_update(conn, kind, parent, npk, oid, cls, a, val):
+    pkc = PKCOLS[:npk]
+    table = "t" if kind == "single" else ("t%d" % (a if kind == "joined" else cls))
+    conn.exec_driver_sql("UPDATE %s SET a%d=? WHERE %s" % (table, a, " AND ".join("%s=?" % k for k in pkc)), tuple([val] + list(pk_of(oid, npk))))
+
+
+def run_query(eng, classes, parent, C, wp, counter, npk=1, nocache=False, shape=0, sp=None, pe=False, pre=None, kind=None, objs=()):
+    """execute select(C) under a with_polymorphic / selectin_polymorphic setting, optionally with
+    populate_existing and in a Session that already holds objects (`pre` = {"C", "wp", "touch",
+    "upd"}: an earlier select(pre.C) whose objects are kept, the attributes of the ids in `touch`
+    read, then raw UPDATEs `upd` = {id: {attr: value}}); returns the canonical outcome and the
+    observed state of the pre-loaded objects {id: [token per attribute]}"""
     from sqlalchemy import select
-    from sqlalchemy.orm import Session, with_polymorphic
+    from sqlalchemy.orm import Session, selectin_polymorphic
+    from sqlalchemy.orm.attributes import instance_state
 
     anc = ancs_of(parent)
+    n = len(parent)
     pkc = PKCOLS[:npk]
+    prestate = {}
+    unsound = []
     with Session(eng) as s:
+        keep = None
+        if pre is not None:
+            try:
+                ent0 = entity_for(classes, pre["C"], pre["wp"])
+                keep = s.execute(select(ent0)).scalars().all()
+                for o in keep:
+                    c = int(type(o).__name__[1:])
+                    mid = mid_of(tuple(getattr(o, k) for k in pkc))
+                    if mid in pre["touch"]:
+                        for a in anc[c]:
+                            getattr(o, "a%d" % a)
+                for o in keep:
+                    c = int(type(o).__name__[1:])
+                    mid = mid_of(tuple(getattr(o, k) for k in pkc))
+                    st, d = instance_state(o), o.__dict__
+                    toks = []
+                    for a in range(n):
+                        key = "a%d" % a
+                        if a not in anc[c]:
+                            toks.append("U")
+                        elif key in d:
+                            toks.append(d[key])
+                        else:
+                            toks.append("U")
+                            if key not in st.expired_attributes:
+                                unsound.append((mid, key))
+                    prestate[mid] = toks
+                conn = s.connection()
+                cls_of = {o["id"]: o["cls"] for o in objs}
+                for oid, ch in pre["upd"].items():
+                    for a, v in ch.items():
+                        raw_update(conn, kind, parent, npk, int(oid), cls_of[int(oid)], int(a), v)
+            except Exception as e:
+                return ("err", "preload:" + canon_error(e), None, None), prestate, unsound
         counter[0] = 0
-        if wp is None:
-            ent = classes[C]
-        elif wp == "*":
-            ent = with_polymorphic(classes[C], "*")
-        else:
-            ent = with_polymorphic(classes[C], [classes[x] for x in wp])
         try:
+            ent = entity_for(classes, C, wp)
             stmt = select(ent).order_by(*[getattr(ent, k) for k in pkc])
+            if sp is not None:
+                stmt = stmt.options(selectin_polymorphic(classes[C], [classes[x] for x in sp]))
             if shape:
                 stmt = stmt.where(ent.id >= 0)  # a differently shaped statement: not served from the compiled cache
             opts = {"compiled_cache": None} if nocache else {}
+            if pe == "stmt":
+                stmt = stmt.execution_options(populate_existing=True)
+            elif pe:
+                opts["populate_existing"] = True
             res = s.execute(stmt, execution_options=opts).scalars().all()
             c1 = counter[0]
             out = []
             for o in res:
                 c = int(type(o).__name__[1:])
                 out.append((mid_of(tuple(getattr(o, k) for k in pkc)), c, tuple(getattr(o, "a%d" % a) for a in anc[c])))
-            return ("ok", out, c1, counter[0] - c1)
+            return ("ok", out, c1, counter[0] - c1), prestate, unsound
         except Exception as e:
-            return ("err", canon_error(e), None, None)
+            return ("err", canon_error(e), None, None), prestate, unsound
+        finally:
+            del keep
 
 
-def requests(kind, parent, selectin, objs, corrupt, C, wp):
+def tok(x):
+    return "N" if x is None else str(x)
+
+
+def requests(kind, parent, selectin, objs, corrupt, C, wp, idents=None, pe=False, cnt=True, prestate=None):
     anc = ancs_of(parent)
     n = len(parent)
+    idents = idents or default_idents(n)
     ancs = "|".join(".".join(str(x) for x in a) for a in anc)
     sel = ".".join("1" if c in selectin else "0" for c in range(n))
+    ids = ".".join(tok(x) for x in idents)
     wps = "N" if wp is None else ("*" if wp == "*" else ".".join(str(x) for x in wp))
+    tail = "%d %d %s" % (1 if pe else 0, 1 if cnt else 0, ";".join("%d:%s" % (i, ".".join(tok(t) for t in ts)) for i, ts in sorted((prestate or {}).items())) or "-")
 
     def dv(o):
         d = corrupt.get(o["id"], o["cls"]) if o["id"] in corrupt else o["cls"]
-        return "N" if d is None else str(d if d >= 0 else 99)
+        return "N" if d is None else str(idents[d] if d >= 0 else UNKNOWN_CODE)
 
-    def v(x):
-        return "N" if x is None else str(x)
-
+    v = tok
     so = sorted(objs, key=lambda o: o["id"])
     if kind == "single":
         rows = ";".join("%d:%s:%s" % (o["id"], dv(o), ".".join(v(o["vals"][a]) if a in anc[o["cls"]] else "N" for a in range(n))) for o in so) or "-"
-        return "poly single %s %s %d %s %s" % (ancs, sel, C, wps, rows)
+        return "poly single %s %s %s %d %s %s %s" % (ancs, sel, ids, C, wps, rows, tail)
     if kind == "joined":
         base = ";".join("%d:%s:%s" % (o["id"], dv(o), v(o["vals"][0])) for o in so) or "-"
         subs = "|".join(",".join("%d:%s" % (o["id"], v(o["vals"][c])) for o in so if c in anc[o["cls"]] and c != 0) or "-" for c in range(n))
-        return "poly joined %s %s 0 %d %s %s %s" % (ancs, sel, C, wps, base, subs)
+        return "poly joined %s %s %s 0 %d %s %s %s %s" % (ancs, sel, ids, C, wps, base, subs, tail)
     tabs = "|".join(",".join("%d:%s" % (o["id"], fmt_vals([o["vals"][a] for a in anc[c]])) for o in so if o["cls"] == c) or "-" for c in range(n))
-    return "poly concrete %s %d %s" % (ancs, C, tabs)
+    return "poly concrete %s %d %s %s" % (ancs, C, tabs, tail)
+
+
+VALUES = [None, 0, 1, 5, -3, 7, 12]
 
 
 def gen_scenario(rng):
@@ -247,6 +356,24 @@ def gen_scenario(rng):
     selectin = ()
     if kind != "concrete" and rng.random() < 0.4:
         selectin = tuple(sorted(rng.sample(range(1, n), rng.randint(1, min(2, n - 1)))))
+    # the discriminator domain, the identity of every class, polymorphic_abstract classes
+    idkind, idents, abstract = None, None, []
+    if kind != "concrete":
+        inner = [c for c in range(n) if c in parent]
+        if rng.random() < 0.3:
+            abstract = sorted(rng.sample(inner, rng.randint(1, min(2, len(inner)))))
+        nonabs = [c for c in range(n) if c not in abstract]
+        idkind = rng.choice(["str", "str", "int", "int"] + (["bool", "bool", "bool"] if len(nonabs) <= 2 else []))
+        if idkind == "bool":
+            codes = rng.sample([0, 1], len(nonabs))
+        else:
+            lo = 0 if (idkind == "int" or rng.random() < 0.5) else 1
+            codes = rng.sample(range(lo, lo + n + 1), len(nonabs))
+        idents = [None] * n
+        for c, code in zip(nonabs, codes):
+            idents[c] = code
+    else:
+        nonabs = list(range(n))
     npk = rng.choice([1, 1, 2, 3])
     if npk == 1:
         ids = rng.sample(range(1, 30), rng.randint(0, 9))
@@ -256,32 +383,77 @@ def gen_scenario(rng):
         ids = rng.sample([a * 100 + b * 10 + c for a in range(1, 3) for b in range(0, 3) for c in range(0, 3)], rng.randint(0, 9))
     objs = []
     for i in ids:
-        c = rng.randrange(n)
-        objs.append({"id": i, "cls": c, "vals": [rng.choice([None, 0, 1, 5, -3, 7, 12]) if rng.random() < 0.9 else None for _ in range(n)]})
+        c = rng.choice(nonabs)
+        objs.append({"id": i, "cls": c, "vals": [rng.choice(VALUES) if rng.random() < 0.9 else None for _ in range(n)]})
     corrupt = {}
     if kind != "concrete" and objs and rng.random() < 0.3:
         o = rng.choice(objs)
-        anc = ancs_of(parent)
         m = rng.random()
-        if m < 0.35:
+        if m < 0.35 and idkind != "bool":
             corrupt[o["id"]] = -1
         elif m < 0.6:
             corrupt[o["id"]] = None
         elif kind == "joined":
-            if parent[o["cls"]] is not None:
+            if parent[o["cls"]] is not None and parent[o["cls"]] in nonabs:
                 corrupt[o["id"]] = parent[o["cls"]]  # identity of the parent class: tables of its chain all hold the row
         else:
-            corrupt[o["id"]] = rng.randrange(n)  # single table: any mapped identity
+            corrupt[o["id"]] = rng.choice(nonabs)  # single table: any mapped identity
     late = None
     if kind != "concrete" and n >= 3 and rng.random() < 0.35:
         late = rng.randint(2, n - 1)  # classes [late, n) are mapped, and their rows stored, after the first round of queries
         corrupt = {}
-    return {"kind": kind, "parent": parent, "selectin": list(selectin), "objs": objs, "corrupt": {str(k): v for k, v in corrupt.items()}, "npk": npk, "late": late}
+    refresh = rng.random() < 0.12
+    return {"kind": kind, "parent": parent, "selectin": list(selectin), "objs": objs, "corrupt": {str(k): v for k, v in corrupt.items()}, "npk": npk, "late": late, "idkind": idkind, "idents": idents, "refresh": refresh}
 
 
-def expected(parent, objs, C):
+def gen_pre(rng, sc):
+    """an earlier load in the same Session + raw changes of the stored values afterwards"""
+    parent, kind, objs = sc["parent"], sc["kind"], sc["objs"]
+    n = len(parent)
     anc = ancs_of(parent)
-    return [(o["id"], o["cls"], tuple(o["vals"][a] for a in anc[o["cls"]])) for o in sorted(objs, key=lambda o: o["id"]) if C in anc[o["cls"]]]
+    C0 = 0 if rng.random() < 0.6 else rng.randrange(n)
+    below = [d for d in range(n) if C0 in anc[d] and d != C0]
+    m = rng.random()
+    if kind == "concrete" or m < 0.3:
+        wp0 = None
+    elif m < 0.75 or not below:
+        wp0 = "*"
+    else:
+        wp0 = sorted(rng.sample(below, rng.randint(1, len(below))))
+    touch = sorted(o["id"] for o in objs if rng.random() < 0.35)
+    upd = {}
+    for o in objs:
+        if rng.random() < 0.6:
+            ch = {}
+            for a in anc[o["cls"]]:
+                if rng.random() < 0.6:
+                    ch[str(a)] = rng.choice([v for v in VALUES if v != o["vals"][a]])
+            if ch:
+                upd[str(o["id"])] = ch
+    return {"C": C0, "wp": wp0, "touch": touch, "upd": upd}
+
+
+def apply_upd(objs, upd):
+    out = []
+    for o in objs:
+        vals = list(o["vals"])
+        for a, v in (upd.get(str(o["id"])) or {}).items():
+            vals[int(a)] = v
+        out.append(dict(o, vals=vals))
+    return out
+
+
+def expected(parent, objs, C, pe=False, prestate=None):
+    """the stored objects of the subtree; an attribute already loaded in the Session keeps its
+    value unless populate_existing is in effect"""
+    anc = ancs_of(parent)
+    out = []
+    for o in sorted(objs, key=lambda o: o["id"]):
+        if C not in anc[o["cls"]]:
+            continue
+        pre = None if pe or not prestate else prestate.get(o["id"])
+        out.append((o["id"], o["cls"], tuple(o["vals"][a] if pre is None or pre[a] == "U" else pre[a] for a in anc[o["cls"]])))
+    return out
 
 
 def expected_corrupt(kind, parent, objs, corrupt, C):
@@ -318,34 +490,52 @@ def expected_corrupt(kind, parent, objs, corrupt, C):
 
 
 def wp_settings(rng, kind, parent, C):
+    """(with_polymorphic, selectin_polymorphic) settings for a query against C"""
     anc = ancs_of(parent)
     n = len(parent)
-    out = [None, "*"] if kind != "concrete" else [None]
+    out = [(None, None), ("*", None)] if kind != "concrete" else [(None, None)]
     below = [d for d in range(n) if C in anc[d] and d != C]
     if kind != "concrete" and below:
-        out.append(sorted(rng.sample(below, rng.randint(1, len(below)))))
+        out.append((sorted(rng.sample(below, rng.randint(1, len(below)))), None))
+        out.append((None, sorted(rng.sample(below, rng.randint(1, len(below))))))
     return out
 
 
-def judge(sc, kind, parent, selectin, objs, corrupt, C, wp, res, phase):
+def describe(sc, kind, parent, selectin, C, wp, sp, pe, pre):
+    s = "select(K%d) with_polymorphic=%s" % (C, wp)
+    if sp is not None:
+        s += " selectin_polymorphic=%s" % sp
+    if pe:
+        s += " populate_existing" + (" (always_refresh)" if sc.get("refresh") else "")
+    s += " on a %s hierarchy (parents %s, selectin %s, %d-column key" % (kind, parent, list(selectin), sc.get("npk", 1))
+    if sc.get("idents"):
+        s += ", %s identities %s" % (sc.get("idkind"), [ident_value(sc.get("idkind"), x) for x in sc["idents"][: len(parent)]])
+    s += ")"
+    if pre is not None:
+        s += " in a Session holding the objects of select(K%d) with_polymorphic=%s (attributes of %s read, then stored values changed: %s)" % (pre["C"], pre["wp"], pre["touch"], pre["upd"])
+    return s
+
+
+def judge(sc, kind, parent, selectin, objs, corrupt, C, wp, res, phase, sp=None, pe=False, pre=None, prestate=None, cnt=True):
     """(canonical line, oracle problem) for one query outcome"""
     if res[0] == "ok":
-        line = "ok %s / %d / %s" % (fmt_ents(res[1]), res[2], "-" if selectin else str(res[3]))
+        line = "ok %s / %s / %s" % (fmt_ents(res[1]), res[2] if cnt else "-", "-" if selectin or not cnt else str(res[3]))
     else:
         line = "err " + res[1]
     why = None
     tag = "" if phase is None else " [%s]" % phase
+    what = describe(sc, kind, parent, selectin, C, wp, sp, pe, pre)
     if not corrupt:
-        exp = expected(parent, objs, C)
+        exp = expected(parent, objs, C, pe, prestate)
         if res[0] != "ok":
-            why = "select(K%d) with_polymorphic=%s on a %s hierarchy (parents %s, selectin %s, %d-column key)%s raised %s" % (C, wp, kind, parent, list(selectin), sc.get("npk", 1), tag, res[1])
+            why = "%s%s raised %s" % (what, tag, res[1])
         elif res[1] != exp:
-            why = "select(K%d) with_polymorphic=%s on a %s hierarchy (parents %s, selectin %s)%s returned %s, the stored objects of that subtree are %s" % (C, wp, kind, parent, list(selectin), tag, res[1], exp)
+            why = "%s%s returned %s, the stored objects of that subtree are %s" % (what, tag, res[1], exp)
     else:
         exp = expected_corrupt(kind, parent, objs, corrupt, C)
         got = ("err", res[1]) if res[0] == "err" else ("ok", res[1])
         if got != exp:
-            why = "select(K%d) with_polymorphic=%s on a %s hierarchy with discriminator of row %s overwritten by %s: got %s, documented outcome %s" % (C, wp, kind, list(corrupt)[0], list(corrupt.values())[0], got, exp)
+            why = "%s with discriminator of row %s overwritten by %s: got %s, documented outcome %s" % (what, list(corrupt)[0], list(corrupt.values())[0], got, exp)
     return line, why
 
 
@@ -357,7 +547,8 @@ def run_scenario(ctx_rng, sc):
     npk, late = sc.get("npk", 1), sc.get("late")
     corrupt = {int(k): v for k, v in sc["corrupt"].items()}
     n = len(parent)
-    m = Mapping(kind, parent, selectin, npk, upto=late)
+    idkind, idents, refresh = sc.get("idkind") or "str", sc.get("idents") or default_idents(n), bool(sc.get("refresh"))
+    m = Mapping(kind, parent, selectin, npk, upto=late, idkind=idkind, idents=idents, refresh=refresh)
     eng = create_engine("sqlite://")
     counter = [0]
 
@@ -372,24 +563,42 @@ def run_scenario(ctx_rng, sc):
         if late is not None:
             # round 1: only classes [0, late) exist; every one of them is queried
             early = [o for o in objs if o["cls"] < late]
-            store(kind, parent[:late], early, {}, eng, npk)
+            store(kind, parent[:late], early, {}, eng, npk, idkind, idents)
             sel1 = tuple(c for c in selectin if c < late)
             for C in range(late):
-                res = run_query(eng, m.classes, parent[:late], C, None, counter, npk)
-                line, why = judge(sc, kind, parent[:late], sel1, early, {}, C, None, res, "before the late subclasses")
+                res, _, _ = run_query(eng, m.classes, parent[:late], C, None, counter, npk)
+                line, why = judge(sc, kind, parent[:late], sel1, early, {}, C, None, res, "before the late subclasses", pe=refresh)
                 case = dict(sc, C=C, wp=None, phase=1)
                 if only is None:
-                    out.append((case, line, requests(kind, parent[:late], sel1, early, {}, C, None), why))
+                    out.append((case, line, requests(kind, parent[:late], sel1, early, {}, C, None, idents[:late], pe=refresh), why))
             m.extend(n)
-            store(kind, parent, [o for o in objs if o["cls"] >= late], {}, eng, npk)
+            store(kind, parent, [o for o in objs if o["cls"] >= late], {}, eng, npk, idkind, idents)
         else:
-            store(kind, parent, objs, corrupt, eng, npk)
-        for C in range(n):
-            for wp in (only.get(str(C)) if only is not None else None) or ([] if only is not None else wp_settings(ctx_rng, kind, parent, C)):
-                res = run_query(eng, m.classes, parent, C, wp, counter, npk, nocache=late is not None, shape=1 if late is not None else 0)
-                line, why = judge(sc, kind, parent, selectin, objs, corrupt, C, wp, res, "after mapping classes %s late" % list(range(late, n)) if late is not None else None)
-                case = dict(sc, C=C, wp=wp, phase=2)
-                out.append((case, line, requests(kind, parent, selectin, objs, corrupt, C, wp), why))
+            store(kind, parent, objs, corrupt, eng, npk, idkind, idents)
+        if only is not None:
+            plan = [(int(C), q["wp"], q.get("sp"), q.get("pe"), q.get("pre")) for C, qs in only.items() for q in qs]
+        else:
+            plan = []
+            for C in range(n):
+                for wp, sp in wp_settings(ctx_rng, kind, parent, C):
+                    plan.append((C, wp, sp, False, None))
+                    if ctx_rng.random() < 0.55:
+                        # the same query under populate_existing and / or against a Session that holds objects
+                        pe = ctx_rng.choice([False, "stmt", "exec", "exec"])
+                        pre = gen_pre(ctx_rng, sc) if (late is None and not corrupt and (not pe or ctx_rng.random() < 0.6)) else None
+                        if pe or pre is not None:
+                            plan.append((C, wp, sp, pe, pre))
+        for C, wp, sp, pe, pre in plan:
+            cur = apply_upd(objs, pre["upd"]) if pre is not None else objs
+            # (the raw UPDATEs run in the Session's transaction and are rolled back with it)
+            res, prestate, unsound = run_query(eng, m.classes, parent, C, wp, counter, npk, nocache=late is not None, shape=1 if late is not None else 0, sp=sp, pe=pe, pre=pre, kind=kind, objs=objs)
+            epe = bool(pe) or refresh
+            cnt = sp is None and not (pre is not None and selectin)
+            line, why = judge(sc, kind, parent, selectin, cur, corrupt, C, wp, res, "after mapping classes %s late" % list(range(late, n)) if late is not None else None, sp=sp, pe=epe, pre=pre, prestate=prestate, cnt=cnt)
+            if unsound and not why:
+                why = "%s: after the earlier load the attributes %s are neither loaded nor marked expired" % (describe(sc, kind, parent, selectin, C, wp, sp, epe, pre), unsound)
+            case = dict(sc, C=C, wp=wp, sp=sp, pe=pe, pre=pre, phase=2)
+            out.append((case, line, requests(kind, parent, selectin, cur, corrupt, C, wp, idents, pe=epe, cnt=cnt, prestate=prestate), why))
     finally:
         eng.dispose()
         m.reg.dispose()
@@ -437,7 +646,11 @@ def run(ctx, deep=False):
         "0-9 rows with NULL-able attribute values of random classes; 40% of the non-concrete hierarchies carry "
         "polymorphic_load='selectin' on 1-2 subclasses; 30% have one corrupted discriminator (unknown, NULL, identity of the "
         "parent class for joined, any identity for single table); every class is queried with with_polymorphic none, '*' and a "
-        "random subset of its descendants; primary keys of 1-3 columns (first column repeating); 35% of the non-concrete trees map "
+        "random subset of its descendants, and with selectin_polymorphic(random subset); the discriminator column is String / Integer / Boolean "
+        "(Boolean when at most two classes carry an identity) and the identities a random injection into c1.. / 0.. / {False, True}, '' and 0 included; "
+        "30% of the non-concrete trees have 1-2 polymorphic_abstract inner classes (no rows); 12% map every class with always_refresh; 55% of the queries are "
+        "repeated with populate_existing (statement or execution option) and / or in a Session holding the objects of an earlier select(K') with "
+        "with_polymorphic none / '*' / subset, a third of them with their attributes read, 60% of the rows then changed by raw UPDATE; primary keys of 1-3 columns (first column repeating); 35% of the non-concrete trees map "
         "their last classes only after a first round of queries against every earlier class (second round uncached); a case is non-trivial when the queried class has descendants with rows"
     )
     ctx.trusted.append("statement counts after attribute access are compared only for hierarchies without polymorphic_load='selectin'")
@@ -461,10 +674,21 @@ def run(ctx, deep=False):
             ctx.count("with-selectin")
         if sc["corrupt"]:
             ctx.count("corrupted-discriminator")
+        if sc["idents"]:
+            ctx.count("identity-domain=" + sc["idkind"])
+            if any(x is None for x in sc["idents"]):
+                ctx.count("with-polymorphic_abstract-class")
+            if any(x == 0 for x in sc["idents"][1:]):
+                ctx.count("falsy-identity-on-a-subclass")
+        if sc["refresh"]:
+            ctx.count("always_refresh")
         anc = ancs_of(sc["parent"])
         for case, line, req, why in results:
             nontriv = any(case["C"] in anc[o["cls"]] and o["cls"] != case["C"] for o in sc["objs"])
             ctx.case(req, nontrivial=nontriv)
+            if case.get("phase") == 2:
+                ctx.count("strategy=" + ("selectin_polymorphic" if case["sp"] is not None else "with_polymorphic:" + ("none" if case["wp"] is None else "*" if case["wp"] == "*" else "subset")))
+                ctx.count("populate_existing=%s,session=%s" % (bool(case["pe"]) or sc["refresh"], "fresh" if case["pre"] is None else "holding-objects"))
             ctx.count("outcome=" + line.split(" ")[0] + (":" + line.split(" ")[1] if line.startswith("err") else ""))
             if why:
                 ctx.violation("c42-oracle:" + sc["kind"], case, why)
@@ -494,10 +718,10 @@ def replay(ctx, obj):
         why = stale_cache_probe(c["probe"] if c["probe"] in ("single", "joined") else "single")
         print("replay C42 stale compiled cache probe -> %s" % why)
         return why is not None
-    sc = {k: c.get(k) for k in ("kind", "parent", "selectin", "objs", "corrupt", "npk", "late")}
+    sc = {k: c.get(k) for k in ("kind", "parent", "selectin", "objs", "corrupt", "npk", "late", "idkind", "idents", "refresh")}
     sc["npk"] = sc["npk"] or 1
-    sc["queries"] = {str(c["C"]): [c["wp"]]}
+    sc["queries"] = {str(c["C"]): [{"wp": c["wp"], "sp": c.get("sp"), "pe": c.get("pe"), "pre": c.get("pre")}]}
     res = [r for r in run_scenario(random.Random(0), sc) if r[0]["C"] == c["C"] and r[0].get("phase", 2) == 2]
     for case, line, req, why in res:
-        print("replay C42 %s select(K%d) wp=%s -> %s ; oracle: %s" % (sc["kind"], case["C"], case["wp"], line, why))
+        print("replay C42 %s select(K%d) wp=%s sp=%s pe=%s pre=%s -> %s ; oracle: %s" % (sc["kind"], case["C"], case["wp"], case["sp"], case["pe"], case["pre"], line, why))
     return any(r[3] for r in res)
